@@ -108,7 +108,7 @@ PROPS = {
         c.qual.startswith('utils.Buffer.') or c.qual.startswith('utils.CharToLineOffset') or c.qual.startswith('utils.Token.') or
         c.qual in ('data.TexExpr.__init__', 'data.TexExpr.append', 'data.TexNode.__init__'),
         level='proof',
-        bounded=['parse.py'],
+        bounded=['parse.py', 'c06_growth.py'],
         lemmas=['the only exception types that can leave TexSoup() are those declared in the `raises` clauses of the closure '
                 '(EOFError from unclosed_env_handler, TypeError from read_arg, AssertionError from the two asserts of read_expr); '
                 'every other raise site (next(), attribute of None, indexing, KeyError, assert) is an obligation "unreachable"',
